@@ -126,6 +126,14 @@ def lp_items(pid, tier, seed):
              for (ns, np_, nl, sp, le, lp) in I.Q_STRUCTS
              for _, pq, lq3 in I.quota_profiles3(ns, np_, nl, le)],
             lambda i: optvecs(True, DIAG2, pairs))
+        add("W multi-digit ids (12 projects / 12 hospitals, 2 students) x (0,0),(0,1) x {none,maxsize}",
+            I.family_W(big=False),
+            lambda i: optvecs(True, ((False, False), (False, True)),
+                              none + [[("maxsize", ())]]))
+        add("W 11 students x (0,0) x {maxsize, mincost}",
+            [x for x in I.family_W() if x.ns == 11],
+            lambda i: optvecs(True, ((False, False),),
+                              [[("maxsize", ())], [("mincost", ())]]))
         if thorough:
             add("B two-sided x P4 x pc x stab x {none}",
                 I.family_B(True), lambda i: optvecs(True, ALL4, none))
@@ -246,7 +254,7 @@ def lp_items(pid, tier, seed):
         add("A(ns+np<=3), nl<=3, two-sided x P x (0,0) x all singles with all argument vectors; (1,1),(0,1) x default singles",
             with_profiles(structs_small(True, TINY, (1, 2, 3))),
             lambda i: optvecs(True, ((False, False),), singles_for(i, True)) +
-            optvecs(True, ((True, True), (False, True)), defaults))
+            optvecs(True, ((True, True), (False, True), (True, False)), defaults))
         add("A(2,2) two-sided x {unit,cap2,lectight} x (0,0) x singles (b>0 variants)",
             with_profiles(structs_small(True, MID, (1, 2)), P4 if thorough else P3),
             lambda i: optvecs(True, ALL4 if thorough else ((False, False),),
@@ -270,6 +278,14 @@ def lp_items(pid, tier, seed):
             lambda i: optvecs(True, DIAG2, defaults +
                               [[("mincost", (1, 1))], [("minsqcost", (0, 1))],
                                [("gre", (1,))]]))
+        wc = [[("mincost", (1, 2))], [("mincost", (2, 1))],
+              [("minsqcost", (1, 2))], [("minsqcost", (2, 1))]]
+        add("HR (3,2)%s two-sided x {h1lq2uq3,lq1uq2%s} x (0,0) x weighted cost criteria (1,2),(2,1) "
+            "(lower quotas force assignments, so weights matter)" % (
+                (",(2,3)", ",h1lq1") if thorough else ("", "")),
+            [x for x in I.family_HR(True, sizes=I.HR_SIZES[6:] if thorough else [(3, 2)])
+             if x.pq[0] in ((2, 3), (1, 2)) or (thorough and x.pq[0] == (1, 1))],
+            lambda i: optvecs(True, ((False, False),), wc))
         if thorough:
             add("A two-sided without -twopl x P3 x (0,0) x singles b>0",
                 with_profiles(structs_small(True, I.SIZES_A, (1, 2)), P3),
